@@ -7,6 +7,7 @@
 package zzenc
 
 import (
+	"bytes"
 	"bufio"
 	"encoding/binary"
 	"encoding/hex"
@@ -764,6 +765,22 @@ func TestKeys(t *testing.T) {
 				r.log(map[string]any{"ev": "KeyAfter", "n": n, "k": k, "orig": orig[k-1],
 					"cached": hx(allp[k-1].Key()), "cached_content": hx((&gpbft.ECChain{TipSets: cloneTipSets(allp[k-1].TipSets)}).Key()),
 					"chain_prefix": hx((&gpbft.ECChain{TipSets: cloneTipSets(chain.TipSets[:k])}).Key()), "cached_len": allp[k-1].Len()})
+			}
+			// decoding into an object that already holds another chain (and has memoised its key) must yield a value that describes the
+			// decoded content: same tipsets, and the key of those tipsets
+			src := &gpbft.ECChain{TipSets: cloneTipSets(tipsets[:(n+1)/2])}
+			var enc bytes.Buffer
+			if err := src.MarshalCBOR(&enc); err == nil {
+				want := hx((&gpbft.ECChain{TipSets: cloneTipSets(src.TipSets)}).Key())
+				tgt := &gpbft.ECChain{TipSets: cloneTipSets(tipsets)}
+				_ = tgt.Key()
+				err1 := tgt.UnmarshalCBOR(bytes.NewReader(enc.Bytes()))
+				tgt2 := allp[n-1]
+				_ = tgt2.Key()
+				err2 := tgt2.UnmarshalCBOR(bytes.NewReader(enc.Bytes()))
+				r.log(map[string]any{"ev": "KeyDecoded", "n": n, "k": (n + 1) / 2, "want": want, "ok": err1 == nil && err2 == nil,
+					"reused": hx(tgt.Key()), "reused_content": hx((&gpbft.ECChain{TipSets: cloneTipSets(tgt.TipSets)}).Key()),
+					"reused_prefix": hx(tgt2.Key()), "reused_prefix_content": hx((&gpbft.ECChain{TipSets: cloneTipSets(tgt2.TipSets)}).Key())})
 			}
 		}
 	}
